@@ -5,41 +5,41 @@ Helper definitions and lemmas live in `Lemmas/Vocab.lean`.
 -/
 import Rscp.Lemmas.Vocab
 namespace Rscp.Props.C14
-open Rscp Rscp.Model
+open Rscp Rscp.Model Rscp.Lemmas.Vocab
 
 /-- tag numbers are strictly increasing in `_TagValues`, hence unique -/
 theorem tag_numbers_unique : Gen.tagValues.Nodup := by
-  sorry
+  exact tagValues_nodup
 
 /-- `_TagMap`, `_TagValues`, `_TagNameToValueMap` list the same tags in the same order -/
 theorem tag_tables_aligned :
     Gen.tagMapC.map (·.1) = Gen.tagValues ∧ Gen.tagNameToValueC.map (fun p => (p.2, p.1)) = Gen.tagMapC ∧
       Gen.tagMap.map (·.1) = Gen.tagValues ∧ Gen.tagNameToValue.map (·.2) = Gen.tagValues := by
-  sorry
+  exact ⟨tagMapC_keys, nameToValueC_swap, tagMap_keys, tagNameToValue_vals⟩
 
 /-- every known tag has a unique name -/
 theorem tag_names_unique : (Gen.tagMapC.map (·.2)).Nodup := by
-  sorry
+  exact codes_nodup
 
 /-- a tag's name parses back to the same number, and a name's number prints as that name -/
 theorem name_roundtrip (t c : Nat) (h : tagName? t = some c) : tagStringC? c = some t := by
-  sorry
+  exact Lemmas.Vocab.name_roundtrip t c h
 theorem number_roundtrip (t c : Nat) (h : tagStringC? c = some t) : tagName? t = some c := by
-  sorry
+  exact Lemmas.Vocab.number_roundtrip t c h
 
 /-- names, numbers and declared data types of the published tags (the frozen snapshot of the pinned commit)
     are all still present, unchanged -/
 theorem vocab_stable : ∀ e ∈ Snapshot.vocabC, e ∈ Gen.vocabC := by
-  sorry
+  exact subseq_sound _ _ snapshot_subseq
 
 /-- the vocabulary list is the tag table joined with the declared data types (`None` when not declared) -/
 theorem vocab_consistent :
     Gen.vocabC.map (fun e => (e.1, e.2.1)) = Gen.tagMapC ∧ ∀ e ∈ Gen.vocabC, tagDataType e.1 = e.2.2 := by
-  sorry
+  exact ⟨vocab_tagMapC, vocab_types⟩
 
 /-- every declared data type is a defined data type, and every tag with a declaration is a known tag -/
 theorem declared_types_defined : ∀ p ∈ Gen.dataTypeMap, isDataType p.2 = true ∧ isATag p.1 = true := by
-  sorry
+  exact declared
 
 /-- for each defined data type the validator, the decoder's allocation, the value constructor and the wire
     length agree on one representation — the one the protocol specification lists -/
@@ -47,34 +47,54 @@ theorem tables_agree (d : Nat) (h : isDataType d = true) :
     ∃ k fixed, Spec.typeRow d = some (k, fixed) ∧ lookup d Gen.validateKind = some k ∧
       lookup d Gen.newEmptyKind = some k ∧ lookup d Gen.newConvKind = some k ∧
       lookup d Gen.lengthMap = some (fixed.getD 0) := by
-  sorry
+  exact Lemmas.Vocab.tables_agree d h
 
 /-- and the tables have no entries beyond the defined data types -/
 theorem tables_only_defined (d : Nat) :
     ((lookup d Gen.validateKind).isSome ∨ (lookup d Gen.newEmptyKind).isSome ∨ (lookup d Gen.newConvKind).isSome ∨
       (lookup d Gen.lengthMap).isSome ∨ (Spec.typeRow d).isSome) → isDataType d = true := by
-  sorry
+  exact Lemmas.Vocab.tables_only_defined d
 
 /-- a tag written to JSON reads back as itself: known tags by name, unknown ones as a decimal string -/
 theorem json_tag_roundtrip_known (t c : Nat) (h : tagName? t = some c) (s : String) (hs : nameCode s = c) :
     tagUnmarshalStr s = some t := by
-  sorry
+  unfold tagUnmarshalStr tagString?
+  rw [hs, Lemmas.Vocab.name_roundtrip t c h]
 theorem json_tag_roundtrip_unknown (t : Nat) (h : t < 2 ^ 32) (hu : tagName? t = none) :
     tagUnmarshalStr (toString t) = some t := by
-  sorry
+  -- `hu` is not needed: no tag name is a decimal numeral, whether or not `t` is a known tag
+  exact (fun _ => Lemmas.Vocab.json_tag_roundtrip_unknown t h) hu
 /-- the code is injective, so "the name with this code" is well defined -/
 theorem nameCode_injective (s₁ s₂ : String) (h : nameCode s₁ = nameCode s₂) : s₁ = s₂ := by
-  sorry
+  exact Lemmas.Vocab.nameCode_injective s₁ s₂ h
 theorem json_tag_number (t : Nat) (h : t < 2 ^ 32) : tagUnmarshalNum t = some t := by
-  sorry
+  simp [tagUnmarshalNum, h]
 
 /-- a data type written to JSON (its name) reads back as itself -/
 theorem json_dt_roundtrip (d : Nat) (h : isDataType d = true) :
     ∃ s, dataTypeName? d = some s ∧ dataTypeString? s = some d ∧ ∀ s', dataTypeString? s' = some d → s' = s := by
-  sorry
+  exact Lemmas.Vocab.json_dt_roundtrip d h
 
 /-- request/response classification is bit 23 of the tag number alone -/
 theorem request_bit (t : Nat) : Gen.Leaf.isRequest t = !t.testBit 23 ∧ Gen.Leaf.isResponse t = t.testBit 23 := by
-  sorry
+  exact Lemmas.Vocab.request_bit t
 
 end Rscp.Props.C14
+
+#print axioms Rscp.Props.C14.tag_numbers_unique
+#print axioms Rscp.Props.C14.tag_tables_aligned
+#print axioms Rscp.Props.C14.tag_names_unique
+#print axioms Rscp.Props.C14.name_roundtrip
+#print axioms Rscp.Props.C14.number_roundtrip
+#print axioms Rscp.Props.C14.vocab_stable
+#print axioms Rscp.Props.C14.vocab_consistent
+#print axioms Rscp.Props.C14.declared_types_defined
+#print axioms Rscp.Props.C14.tables_agree
+#print axioms Rscp.Props.C14.tables_only_defined
+#print axioms Rscp.Props.C14.json_tag_roundtrip_known
+#print axioms Rscp.Props.C14.json_tag_roundtrip_unknown
+#print axioms Rscp.Props.C14.nameCode_injective
+#print axioms Rscp.Props.C14.json_tag_number
+#print axioms Rscp.Props.C14.json_dt_roundtrip
+#print axioms Rscp.Props.C14.request_bit
+
